@@ -2,3 +2,4 @@ import BufModel.Path
 import BufModel.Bucket
 import BufModel.Faults
 import BufModel.Cache
+import BufModel.Token
